@@ -1445,7 +1445,25 @@ func (x *Exec) useTerm(st *State, cl *Clause, e ast.Expr, c *evalCtx) *Term {
 				for _, pe := range n.Args[4:] {
 					pats = append(pats, scT(cc.rv(cc.eval(pe))))
 				}
-				return Forall([]*Term{bv}, Implies(And(Le(lo, bv), Lt(bv, hi)), body), pats...)
+				// hypotheses of the lemma that do not mention the bound variable are hoisted out of the quantifier:
+				// (forall k. C && R(k) ==> B(k))  is  C ==> forall k. R(k) ==> B(k); a C that is literally known then
+				// disappears when the clause is assumed
+				var closed []*Term
+				for body.Op == "=>" && len(body.Args) == 2 {
+					var keep []*Term
+					for _, c := range conjuncts(body.Args[0]) {
+						if hasSymP(c, func(n string) bool { return n == bv.Name }) {
+							keep = append(keep, c)
+						} else {
+							closed = append(closed, c)
+						}
+					}
+					body = Implies(And(keep...), body.Args[1])
+					if len(keep) > 0 {
+						break
+					}
+				}
+				return Implies(And(closed...), Forall([]*Term{bv}, Implies(And(Le(lo, bv), Lt(bv, hi)), body), pats...))
 			}
 		default:
 			return x.lemmaInstance(st, cl, n, c)
